@@ -36,7 +36,7 @@ TABLE = {
         "theorems": ["AcqVerif.C07.stop_returns_armed_and_clean", "AcqVerif.C07.stop_has_joined", "AcqVerif.C07.start_over_finished_threads",
                      "AcqVerif.C07.idle_runtime_is_clean", "AcqVerif.C07.refusal_wakes_a_sleeping_source", "AcqVerif.C07.stop_never_waits_for_an_orphaned_sleeper",
                      "AcqVerif.Runtime.TInvAll.micro", "AcqVerif.Runtime.DWake.micro", "AcqVerif.Runtime.DStop.micro", "AcqVerif.Runtime.Reach.micro"],
-        "classes": ["abort", "abortmon", "holdmon", "trig", "avgabort", "stofault", "restart"],
+        "classes": ["abort", "abortmon", "holdmon", "trig", "avgabort", "stofault", "restart", "reconf"],
         "kinds": ("still-running-after", "state-after", "never-returns", "stored-", "camera-delivered", "CRASH", "monitor-frame-not-from"),
         "what": "abort/stop from any moment (ring full, client holding data, trigger wait, averaging, finished) return, leave workers finished, devices "
                 "stopped, runtime Armed, storage with a gap-free prefix, and the next acquisition complete",
@@ -46,7 +46,7 @@ TABLE = {
         "theorems": ["AcqVerif.C08.camera_stopped_once_per_start", "AcqVerif.C08.camera_started_only_when_armed", "AcqVerif.C08.camera_used_only_while_running",
                      "AcqVerif.C08.running_device_has_a_worker", "AcqVerif.C08.running_only_while_workers_alive", "AcqVerif.C08.not_running_after_workers_exit",
                      "AcqVerif.C08.unconfigured_stream_untouched", "AcqVerif.C08.start_while_running_refused"],
-        "classes": ["api", "switchfail", "restart", "two", "camfault"],
+        "classes": ["api", "switchfail", "restart", "two", "camfault", "reconf"],
         "kinds": ("device-", "state-", "still-running-after", "never-returns", "CRASH"),
         "what": "every device is opened/closed once, started only when armed, stopped once per start, used only between start and stop; "
                 "Running reported only while workers are alive",
